@@ -46,33 +46,35 @@ class ScInfo:
         return order, stuck
 
     def refdag(self, missing=(), fixed=None, only=None):
-        """Reference evaluation of the dependency graph in topological order.
+        """Reference evaluation of the dependency graph: least fixpoint of
+          - a flagged job with a failed or canceled blocker is canceled (never runs);
+          - otherwise a job runs once all its blockers have outcomes, and is successful or
+            failed by its exit code;
+          - everything else (on or behind a dependency cycle, or waiting for a missing job)
+            never gets an outcome: missing.
+        For an acyclic graph this is the evaluation in topological order.  A cancellation can
+        resolve a cycle (the canceled job is an outcome for its dependents).
         missing: jobs that never produce an outcome (lost batches).
-        fixed:   {name: class} outcomes taken as given (not re-evaluated).
+        fixed:   {name: class} outcomes taken as given.
         only:    restrict blockers to this set (resubmission epochs).
         Returns {name: successful|failed|canceled|missing}."""
-        order, stuck = self.topo()
         out = dict(fixed or {})
-        miss = set(missing) | set(stuck)
-        for n in order:
-            if n in out:
-                continue
-            if n in miss:
-                out[n] = "missing"
-                continue
-            bs = [b for b in self.blockers[n] if only is None or b in only]
-            if any(out.get(b) == "missing" for b in bs):
-                # waits forever for a missing job; canceled only if flagged and another blocker failed
+        miss = set(missing)
+        todo = [n for n in self.names if n not in out and n not in miss]
+        changed = True
+        while changed:
+            changed = False
+            for n in list(todo):
+                bs = [b for b in self.blockers[n] if only is None or b in only]
                 if self.spec[n].get("cancel") and any(out.get(b) in ("failed", "canceled") for b in bs):
-                    out[n] = "canceled_or_missing"
+                    out[n] = "canceled"
+                elif all(out.get(b) in ("successful", "failed", "canceled") for b in bs):
+                    out[n] = "successful" if int(self.spec[n].get("rc", 0)) == 0 else "failed"
                 else:
-                    out[n] = "missing"
-                continue
-            if self.spec[n].get("cancel") and any(out.get(b) in ("failed", "canceled") for b in bs):
-                out[n] = "canceled"
-            else:
-                out[n] = "successful" if int(self.spec[n].get("rc", 0)) == 0 else "failed"
-        for n in stuck:
+                    continue
+                todo.remove(n)
+                changed = True
+        for n in self.names:
             out.setdefault(n, "missing")
         return out
 
